@@ -52,28 +52,30 @@ const (
 	kResidue      = "recover-stack-residue"
 	kDebugUnused  = "debug-unused-func-range"
 	kNilBytes     = "nil-bytes-conversion"
+	kAppendArgs   = "append-args-see-appended"
 )
 
 type vinfo struct {
-	name    string
-	typ     string
-	lo, hi  float64 // int: value range (tight variables: range of the only value; wide: +-wideB)
-	wide    bool    // int: assignable
-	ro      bool    // must not be assigned / appended / element-written at this point
-	growing bool    // string/[]byte/[]int: may be appended to (then it is never ranged over)
-	minLen  int     // string/[]byte/[]int: statically known minimal length
-	ascii   bool    // string: only ASCII content is ever stored
-	sureI   []int64 // map[int]int: keys certainly present
-	sureS   []string
-	global  bool
-	gidx    int
-	idxOf   *vinfo // int: index variable of a loop over this container
-	appends int    // []int: appended elements accounted so far
-	nodel   bool
-	param   bool
-	maybeNil bool // []byte: may hold the zero value (nil)
+	name     string
+	typ      string
+	lo, hi   float64 // int: value range (tight variables: range of the only value; wide: +-wideB)
+	wide     bool    // int: assignable
+	ro       bool    // must not be assigned / appended / element-written at this point
+	growing  bool    // string/[]byte/[]int: may be appended to (then it is never ranged over)
+	minLen   int     // string/[]byte/[]int: statically known minimal length
+	ascii    bool    // string: only ASCII content is ever stored
+	sureI    []int64 // map[int]int: keys certainly present
+	sureS    []string
+	global   bool
+	gidx     int
+	idxOf    *vinfo // int: index variable of a loop over this container
+	appends  int    // []int: appended elements accounted so far
+	nodel    bool
+	param    bool
+	maybeNil bool    // []byte: may hold the zero value (nil)
 	maxLen   float64 // string / []byte: upper bound of the length
 	noAppend bool    // string: += is not allowed (the bound has no room for growth)
+	hidden   bool    // temporarily not usable in expressions
 }
 
 type fsig struct {
@@ -135,6 +137,10 @@ type fctx struct {
 	// enclosing range loops and switches, which keep their state on the evaluation stack.
 	noSoftExpr bool
 	stackItems int
+	// trace: name of a local int that records the path taken through the function ("" = none); it is mixed into
+	// the int / bool results so that a wrong jump is visible in the returned value.
+	trace    string
+	traceCtr int
 }
 
 type gen struct {
@@ -213,10 +219,10 @@ func (g *gen) weighted(w []int, label string) int {
 
 // ---- node constructors -----------------------------------------------------------------------------
 
-func none() *Node               { return &Node{K: "none"} }
-func ilit(v int64) *Node        { return &Node{K: "lit", T: "int", N: v} }
-func slitS(s string) *Node      { return &Node{K: "lit", T: "string", S: s} }
-func vr(name string) *Node      { return &Node{K: "var", S: name} }
+func none() *Node          { return &Node{K: "none"} }
+func ilit(v int64) *Node   { return &Node{K: "lit", T: "int", N: v} }
+func slitS(s string) *Node { return &Node{K: "lit", T: "string", S: s} }
+func vr(name string) *Node { return &Node{K: "var", S: name} }
 func bin(op string, a, b *Node) *Node {
 	return &Node{K: "bin", S: op, A: []*Node{a, b}}
 }
@@ -240,7 +246,7 @@ type ex struct {
 	minLen int
 	ascii  bool
 	short  bool
-	fresh  bool // struct values: not an alias of a stored value
+	fresh  bool    // struct values: not an alias of a stored value
 	maxLen float64 // strings / byte slices: upper bound of the length
 }
 
@@ -254,7 +260,9 @@ func (g *gen) visible() []*vinfo {
 		for j := len(sc) - 1; j >= 0; j-- {
 			if !seen[sc[j].name] {
 				seen[sc[j].name] = true
-				out = append(out, sc[j])
+				if !sc[j].hidden {
+					out = append(out, sc[j])
+				}
 			}
 		}
 	}
@@ -345,7 +353,7 @@ func fitStore(e ex) ex {
 	}
 	return shrinkTo(e, storeB, 1000003)
 }
-func fitAdd(e ex) ex   { return shrinkTo(e, addB, 1009) }
+func fitAdd(e ex) ex { return shrinkTo(e, addB, 1009) }
 
 func pow2hull(a, b ex) (float64, float64) {
 	m := math.Max(mag(a), mag(b))
@@ -443,7 +451,7 @@ func (g *gen) shift(op string, a ex, k ex) ex {
 	return r
 }
 
-func (g *gen) mayPanic() bool  { return !g.f.noPanic && !g.f.noSoft && !g.f.noSoftExpr }
+func (g *gen) mayPanic() bool { return !g.f.noPanic && !g.f.noSoft && !g.f.noSoftExpr }
 
 // softStmtOK: may a statement raise a catchable exception here (explicit panic, call of a function that may)?
 func (g *gen) softStmtOK() bool {
